@@ -31,4 +31,14 @@ CHECKS.update({
                 text="After every single-injection run, every open simulated transport must be reachable from a pooled connection (else it is an orphan) and after pool close none may be open; each pooled connection owns at most one open transport.",
                 note="A stream counts as closed when close()/aclose() was called; start_tls closes on failure but not on cancellation (as the real back-ends)."),
 })
+CHECKS.update({
+    "C14": dict(category="fault_enumeration", design_ref="DESIGN §4 C14",
+                technique="runtime monitoring: per-call token counting over all simulated transports under every fault position and a GOAWAY matrix (exactly-once / at-most-once oracle over the recorded ledger)",
+                text="Part A injects every documented fault at every network operation for direct HTTP/1.1, TLS, HTTP/2 (ALPN and prior knowledge) and forward-proxy connections, 1 and 3 concurrent callers, retries 0 and 2: heads per call <= 1 and, once request bytes had started, the call fails and neither reconnects nor reappears elsewhere. Part B sends GOAWAY at head/end of each of 3 concurrent requests with last-stream-id 0/previous/this/all: refused streams are re-sent at most once with the right body, no stream opens after GOAWAY reached the client, nobody hangs.",
+                note="Bytes attributed by a contextvar per caller; HTTP/2 heads by decoded token; graceful GOAWAY is written raw so the h2 server role keeps serving lower streams."),
+    "C16": dict(category="exploration", design_ref="DESIGN §4 C16",
+                technique="runtime monitoring: timeout ledger (argument of every simulated connect/start_tls/read/write) plus virtual-clock PoolTimeout instants on asyncio, trio and scheduler-controlled threads",
+                text="O1: for 13 connection types x 3 shapes x first use/reuse x 6 timeout configurations every recorded operation must carry the configured value for its kind (SOCKS negotiation: a configured value, never None when all are set). O2: holder/waiter histories with exact virtual release times and pool timeouts: PoolTimeout at exactly t0+P, success if a slot frees earlier, nothing left counted.",
+                note="Virtual clock shared by loop/scheduler and httpcore's time.monotonic; thread runs use seeded random schedules."),
+})
 NOT_YET = {}
